@@ -74,6 +74,7 @@ func (v *BasicSeqnoValidator) validate(ctx context.Context, _ peer.ID, m *Messag
 	}
 
 	// get the nonce and compare again with an exclusive lock before commiting (cf concurrent validation)
+	verifYield(verifSeqnoBeforeCommit)
 	v.mx.Lock()
 	defer v.mx.Unlock()
 
